@@ -204,4 +204,4 @@ def run(ctx: common.Ctx):
     searchtie.run(ctx, 96 if quick else 800)
     # graph-level tie of nonzero: coordinate grid + Compress + GatherElements (Model/TGraphScatter.nonzeroGraph; Props/C12Nonzero.lean)
     from .. import scattertie
-    scattertie.run(ctx, 80 if quick else 1600, label="nonzero", kinds=("nonzero", "where"))
+    scattertie.run(ctx, 80 if quick else 800, label="nonzero", kinds=("nonzero", "where"))
